@@ -9,7 +9,7 @@ import tempfile
 from .facts import INCLUDE, sh
 from .model import NS, LDG, LUG
 from .report import Finding, RuleResult
-from .rules_pair import strip_cast
+from .rules_pair import strip_cast, region_atoms
 from .rules_val import var_defs, is_size_term
 from .terms import Terms, show, subterms
 
@@ -2076,3 +2076,69 @@ def split_ir_functions(ir):
                 out[cur] = '\n'.join(buf)
                 cur = None
     return out
+
+
+def rule_name_table(m):
+    """F-IO.NAMES: names[index(x)] = x must hold for every name and *every* vertex-name mapper (the index loader is the name
+    loader with a numeric mapper, a caller may pass any mapping): a store into the name table that happens only while the
+    index is not yet inside the graph / table ("first time the vertex shows up") leaves the name of an index that is first
+    mentioned after a larger one empty. Decided on the loader and on the lambdas defined in it."""
+    res = RuleResult('F-IO.NAMES', 'every store names[index] = token in the text loader (and in lambdas defined in it) is '
+                                   'independent of a growth test `index >= size`: the name table is filled for every mapper, '
+                                   'not only for one that numbers names in order of first appearance')
+    fs = [f for tn, lst in m.by_tname.items() if tn == LOADER_TEXT or tn.startswith(LOADER_TEXT + '::(lambda)') for f in lst]
+    if not fs:
+        res.broken('F-IO.NAMES: anchor vanished: no analysed instantiation of ' + LOADER_TEXT)
+        return res
+    for f in fs:
+        tt = Terms(f)
+        disp = f.display()
+        for n in f.nodes:
+            if not (n['k'] == 'CXXOperatorCallExpr' and 'callee' in n and f.unit.decl(n['callee']).get('op') == '='):
+                continue
+            t = tt.t(n['i'])
+            if not (t[0] == 'bin' and t[1] == '='):
+                continue
+            l = strip_cast(t[2])
+            if not (l[0] == 'idx' and l[1][0] == 'var'):
+                continue
+            ct = (f.unit.decl(l[1][1]) or {}).get('ctype', '')
+            if not (ct.startswith('std::vector<std::string') or ct.startswith('std::vector<std::basic_string') or
+                    ct.startswith('std::vector<std::__cxx11::basic_string')):
+                continue
+            res.sites += 1
+            x = strip_cast(l[2])
+            related = {x}
+            if x[0] == 'var':
+                # locals computed from the index (largest = max(vertex, vertex2)) stand for it in a growth test
+                for nn in f.nodes:
+                    if nn['k'] == 'DeclStmt':
+                        for ix, d in enumerate(nn['decls']):
+                            if ix < len(nn['c']) and nn['c'][ix] >= 0 and x in set(subterms(tt.t(nn['c'][ix]))):
+                                related.add(('var', d))
+
+            def is_size(s):
+                return any(isinstance(y, tuple) and y and y[0] == 'mcall' and (y[1].endswith('::getSize') or y[1].endswith('::size'))
+                           for y in subterms(s))
+
+            def has_index(s):
+                return any(y in related for y in subterms(s))
+            bad = None
+            for a in region_atoms(f, tt, n['i']):
+                a0 = strip_cast(a)
+                if a0[0] != 'bin' or a0[1] not in ('>=', '>', '<=', '<'):
+                    continue
+                lhs, rhs = a0[2], a0[3]
+                if (a0[1] in ('>=', '>') and has_index(lhs) and is_size(rhs)) or \
+                        (a0[1] in ('<=', '<') and is_size(lhs) and has_index(rhs)):
+                    bad = a0
+                    break
+            if bad is not None:
+                res.fail(Finding('F-IO.NAMES', disp, 'name store under a growth test', f.nloc(n['i']),
+                                 '`%s` is executed only when `%s` holds, i.e. only while the index is not yet inside the graph: '
+                                 'with a vertex-name mapper that does not number names in order of first appearance (the index '
+                                 'loader, a caller-supplied mapping) an index first mentioned after a larger one keeps an empty '
+                                 'name, so names[index(x)] = x fails' % (f.expr_text(n['i'])[:70], show(bad, f.unit)[:80])))
+            else:
+                res.ok(dict(function=disp, store=f.expr_text(n['i'])[:80]) if len(res.samples) < 4 else None, fn=disp)
+    return res
